@@ -16,6 +16,13 @@ CLAIMS = {
  "C11": ("proof", "C11.counts: bounds on T, one instruction per body step, tail <= 2T+1; S2 compares target/body/tail of real runs with the model; oracle checks the decoded length bounds.", "§6 C11", "Lean theorem + S2 + oracle"),
  "C17": ("proof", "C17.step_sim / run_sim: every guarded step of the simulated VM is accepted by the reference machine and preserves the kind-compatibility relation; S1 (complete to depth) and S2 (every step of real runs) tie model to code.", "§6 C17", "Lean refinement theorem + S1/S2 correspondence"),
 }
+CLAIMS.update({
+ "C08": ("proof", "C08.* theorems on the generator-object model (generate_internal resets its scratch state first, so the result is a function of configuration and this call's input for every history) plus stream S6: call histories (generate / generate_from_arbitrary / reset, mixed inputs, the PickleMutator pattern) on one real generator compared with a fresh one; S3 ties the model of one call to the code byte for byte.", "§6 C08", "Lean theorem on the generator-object model + S6 history correspondence + S3"),
+ "C09": ("proof", "C09.total over the exact generator model: for every lawful entropy source and every configuration the model returns Ok with non-empty bytes, i.e. none of the modelled panic sites is reachable and all loops terminate; tied by S3 (byte-exact agreement with generate_from_arbitrary, exhaustive for inputs of length <= 1 quick / <= 2 thorough), S4/S5 (no panic in mutators/adapters) and the oracle (every generation call returns a pickle). Native stack exhaustion / allocator failure are observed, not modelled (partial).", "§6 C09", "Lean totality theorem + S3 exact correspondence + oracle"),
+ "C15": ("proof", "C15.rate0 / C15.rate1 on the mutator model with the IEEE comparison on bit patterns, for every entropy source; S4 calls every real mutator at rate 0.0/1.0 in both entropy modes (incl. empty/exhausted input) and S2 counts applied mutations of whole generations at rate 0.", "§6 C15", "Lean theorems + S4 correspondence (exact in fuzzer-bytes mode)"),
+ "C16": ("proof", "C16.* contract theorems per mutator for all values and all lawful entropy sources; S4: the contract predicates evaluated on the real mutators' results (boundaries exhaustively) and exact agreement with the model in fuzzer-bytes mode.", "§6 C16", "Lean theorems + S4 correspondence"),
+ "C18": ("proof", "C18.arb_lawful: the exact port of arbitrary::Unstructured satisfies the entropy contract for every remaining-bytes state; table theorem for ASCII_CHARS; S5: both real sources on a grid (Arbitrary side must equal the port exactly; exhaustive for inputs of length <= 1 quick / <= 2 thorough).", "§6 C18", "Lean theorem on the exact Unstructured port + S5 correspondence"),
+})
 PENDING = {
  "C07": "check under construction in this session (purity/determinism; model + multi-process comparison)",
  "C08": "check under construction in this session (generator reuse; history model + S6)",
